@@ -44,13 +44,17 @@ def one(ctx: Ctx, cs, pname=None, **over):
     case = {'case_seed': cs, 'profile': pname, 'over': over, 'text': x}
     n = len(doc.headers)
     types = sorted(set(doc.headers))
+    known = set(kpx.T.HEADERS)
+    if any(h not in known for h in doc.headers):
+        ctx.cls('unknown_spine_type')
     fulls = {}
     for name in ('kern', 'ekern'):
-        full, err = kpx.dumps(d, encoding=kpx.ENC_BY_NAME[name])
+        # the "full export": every spine of the document, also those of a type outside the default header set
+        full, err = kpx.dumps(d, encoding=kpx.ENC_BY_NAME[name], spine_types=types)
         if err is not None:
             ctx.mon('precondition_failed')
             return
-        ag = GM.annotate(doc, d, full if name == 'ekern' else kpx.dumps(d, encoding=kpx.Enc.eKern)[0])
+        ag = GM.annotate(doc, d, full if name == 'ekern' else kpx.dumps(d, encoding=kpx.Enc.eKern, spine_types=types)[0])
         if ag is None:
             ctx.mon('alignment_failed (C03 decides)')
             return
@@ -69,7 +73,9 @@ def one(ctx: Ctx, cs, pname=None, **over):
                 k += 1
                 continue  # thin out the full product a little; every single-option subset is always run
             k += 1
-            keep = {i for i in range(n) if (ids is None or i in ids) and (tys is None or doc.headers[i] in tys)}
+            # spine_types omitted = the documented default set of headers (unknown types are not exported by default)
+            keep = {i for i in range(n) if (ids is None or i in ids) and
+                    (doc.headers[i] in tys if tys is not None else doc.headers[i] in known)}
             name = 'kern' if k % 2 else 'ekern'
             full, rows = fulls[name]
             exp = project_text(rows, keep)
@@ -97,7 +103,7 @@ def one(ctx: Ctx, cs, pname=None, **over):
     for tys in type_sets:
         ctx.ev()
         ctx.mon('spine_type_queries')
-        exp = [h for h in doc.headers if (tys is None or h in tys)]
+        exp = [h for h in doc.headers if (h in tys if tys is not None else h in known)]
         try:
             got = kp.spine_types(d, tys)
         except Exception as ex:
@@ -114,13 +120,18 @@ def run(ctx: Ctx):
     ctx.rule = ('documents of the C01 generator (up to 4 spines, nested splits, joins, early terminators) x every subset of spine ids '
                 '(incl. empty and absent ids) x every subset of the document\'s spine types (incl. empty and absent types) and their '
                 'combinations; expected = the real full export with the columns of unselected spines deleted (column -> spine from the '
-                'spine-path model) and all-null lines dropped, compared byte for byte in kern and eKern; spine_types(doc, headers) = '
+                'spine-path model) and all-null lines dropped, compared byte for byte in kern and eKern; a quarter of the documents carry a spine of '
+                'an unknown type (**foo, **silbe), which is exported only when its type is named; spine_types(doc, headers) = '
                 'header line of the projection. Non-trivial = proper non-empty selection on a document with >= 2 spines and a split in '
                 'a non-first spine; distinct by (document, ids, types).')
     ctx.assumptions = ['column -> spine mapping from model/spinepaths.py']
     n = 110 if ctx.tier == 'quick' else 600
-    for cs in cases(ctx, 'c06', n):
-        one(ctx, cs, min_spines=2, p_split=0.25)
+    from ..gen.doc import ALL_TYPES
+    for k, cs in enumerate(cases(ctx, 'c06', n)):
+        if k % 4 == 3:
+            one(ctx, cs, min_spines=2, p_split=0.25, types=ALL_TYPES + ('**foo', '**silbe', '**foo'))
+        else:
+            one(ctx, cs, min_spines=2, p_split=0.25)
     ctx.floors = {'projections': ('projected_exports', 1500), 'queries': ('spine_type_queries', 300)}
 
 
